@@ -225,6 +225,12 @@ let dispatch (op : string) (t : toks) : string =
         | EvBlockEnd -> None) o.x_events in
       String.concat " " ["res=" ^ rs; out_bytes o.x_wire; out_list out_bytes o.x_sent;
                          out_list out_bytes o.x_recv; "ev=" ^ String.concat "," evs]
+  | "b2fvalidate" ->
+      let m = get_bytes t in let s = get_bytes t in
+      (match validate m s with
+       | VOk -> "ok"
+       | VBad (who, why, at) -> Printf.sprintf "bad %s why=%d at_element=%d" (if who then "master" else "slave")
+                                  (int_of_n why) (int_of_nat at))
   | _ -> raise Not_found
 
 let () =
